@@ -620,9 +620,766 @@ def r13b(ctx):
                       f"denom_eri_sym[number, {name}] returns {fmt(o.value)}", key=f"denom_eri_sym number {name}")
 
 
+# ------------------------------------------------------------------------------------------------ R13c
+
+def interp_D(t, salt):
+    """Meaning of the symbolic denominator: D^{upper}_{lower} (SymmetricTensor, bra-ket antisymmetric) stands for
+    1 / (sum of the upper orbital energies - sum of the lower orbital energies)."""
+    if isinstance(t, T) and t.op == "tensor" and t.args[1] == NAMES["sym_orb_denom"]:
+        cls, name, up, lo, bks = t.args
+        if cls != "SymmetricTensor" or bks != -1:
+            return None
+        s = sum((value(E(u), salt) for u in up), Fraction(0)) - sum((value(E(x), salt) for x in lo), Fraction(0))
+        return 1 / s if s != 0 else None
+    return None
+
+
+def _has_D(v):
+    return any(x.op == "tensor" and x.args[1] == NAMES["sym_orb_denom"] for x in subterms(raw(v)))
+
+
+def r13c(ctx):
+    rule = "R13c"
+    D = NAMES["sym_orb_denom"]
+    st = {}
+    # -- writer: explicit brackets -> D tensors
+    fn = ctx.model.fn(EOd + "symbolic_denominator")
+    nB1 = {k: -v for k, v in B1.items()}
+    cases = {"single bracket": B(**B1), "two brackets": t_mul(B(**B1), T("pow", B(**B2), 2)), "single cube": T("pow", B(**B3), 3),
+             "reversed bracket": t_mul(B(**nB1), T("pow", B(k=-1, c=1), 3)), "only added": t_mul(B(i=1, j=1), B(**B2)),
+             "only subtracted": T("pow", B(a=-1, b=-1), 2)}
+    for name, den in cases.items():
+        w = World(IDX)
+        sx = w.make(ctx, "symbolic_denominator")
+
+        def args(den=den):
+            st["me"] = eo_self(w, 1, B(i=1, a=-1), norm(den), ERI)
+            return dict(self=st["me"])
+        what = f"symbolic_denominator[{name}]"
+        for o in returned(ctx, rule, fn, sx.run(fn, args), what, f"writer {name}"):
+            vcheck(ctx, rule, fn, o.value, T("pow", norm(den), -1),
+                   f"{what}: product of D^(added)_(subtracted) ** exponent (SymmetricTensor, bra-ket symmetry -1) = 1 / denominator",
+                   f"{what}: {fmt(norm(den))} is written as a product of tensors that does not stand for 1/denominator (D^(U)_(L) "
+                   "= 1/(sum e_U - sum e_L) must be a SymmetricTensor with bra-ket symmetry -1, the added energies above, the "
+                   "subtracted ones below, raised to the exponent of the bracket)", key=f"writer {name}", interp=interp_D)
+            reg = w.assumptions_of(o.value)["antisym_tensors"] if isinstance(o.value, Obj) else ()
+            ctx.check(rule, fn, D in reg, "the name of the symbolic denominator is registered as bra-ket antisymmetric in the result",
+                      f"{what}: antisym_tensors of the result are {reg}", key=f"writer {name} register")
+    w = World(IDX)
+    sx = w.make(ctx, "symbolic_denominator")
+
+    def args():
+        st["me"] = eo_self(w, 1, 1, 1, ERI, )
+        st["me"].attrs["_denom"] = w.expr(1, antisym_tensors=("x",))
+        return dict(self=st["me"])
+    for o in returned(ctx, rule, fn, sx.run(fn, args), "symbolic_denominator[number]", "writer number"):
+        reg = w.assumptions_of(o.value)["antisym_tensors"] if isinstance(o.value, Obj) else None
+        ctx.check(rule, fn, same_value(o.value, 1) and reg == ("x",), "number denominator: nothing to replace, nothing registered",
+                  f"symbolic_denominator[number] returns {fmt(o.value)} with antisym_tensors {reg}", key="writer number")
+    for name, den in (("coefficient 2", B(i=2, a=-1)), ("coefficient 1/2", t_mul(B(**B1), B(k=Fraction(1, 2), c=-1)))):
+        w = World(IDX)
+        sx = w.make(ctx, "symbolic_denominator")
+        outs = sx.run(fn, lambda den=den: dict(self=eo_self(w, 1, 1, norm(den), ERI)))
+        ctx.check(rule, fn, all(o.kind == "raise" for o in outs), f"bracket with {name}: cannot be written as D, refused",
+                  f"symbolic_denominator accepts the bracket {fmt(norm(den))} (coefficients other than +-1 are lost)", key=f"writer {name}")
+    # -- reader: D tensor -> explicit bracket
+    fn = ctx.model.fn(EC + "Obj.use_explicit_denominators")
+    Dt = tensor("SymmetricTensor", D, ("i", "j"), ("a", "b"), -1)
+    objs = {"D": Dt, "D**2": T("pow", Dt, 2), "D**-1": T("pow", Dt, -1), "D upper only": tensor("SymmetricTensor", D, ("i",), (), -1),
+            "D lower only": T("pow", tensor("SymmetricTensor", D, (), ("a", "b"), -1), 3), "V": ERI, "V**2": T("pow", ERI, 2), "e_i": E("i")}
+    for name, val in objs.items():
+        for rs in (True, False):
+            w = World(IDX)
+            sx = w.make(ctx, "Obj.use_explicit_denominators")
+
+            def args(val=val, rs=rs):
+                ob = w.objects_of(w.terms_of(w.expr(t_mul(TAMP, val), antisym_tensors=(D, "x")))[0])
+                ob = [x for x in ob if same_value(x, val)][0]
+                return dict(self=as_self(w, ob, EC + "Obj", names=("name", "base_and_exponent", "sympy", "antisym_tensors", "assumptions",
+                                                                   "base", "exponent")), return_sympy=rs)
+            what = f"Obj.use_explicit_denominators[{name}{'' if rs else ', wrapped'}]"
+            for o in returned(ctx, rule, fn, sx.run(fn, args), what, f"reader {name} {rs}"):
+                vcheck(ctx, rule, fn, o.value, val, f"{what}: D^(U)_(L)**n -> (sum e_U - sum e_L)**(-n); other objects untouched",
+                       f"{what}: {fmt(val)} is replaced by {fmt(o.value)}, which is not what the symbolic denominator stands for "
+                       "(upper energies added, lower subtracted, exponent negated)", key=f"reader {name} {rs}", interp=interp_D)
+                ctx.check(rule, fn, not _has_D(o.value), "no symbolic denominator left", f"{what}: result {fmt(o.value)} still contains D",
+                          key=f"reader {name} {rs} explicit")
+                if not rs:
+                    reg = w.assumptions_of(o.value)["antisym_tensors"] if isinstance(o.value, Obj) else None
+                    ctx.check(rule, fn, reg == ("x",), "the name of the symbolic denominator is de-registered in the wrapped result",
+                              f"{what}: antisym_tensors of the result are {reg}", key=f"reader {name} deregister")
+    # -- the term with symbolic denominator: D * pref * num * eri
+    fn = ctx.model.fn(EC + "Term.use_symbolic_denominators")
+    w = World(IDX)
+    SD = T("pow", Dt, 2)
+
+    def eo_hook(sx, a, kw):
+        me = eo_self(w, Fraction(-1, 2), B(i=1, a=-1), T("pow", B(**B1), 2), ERI)
+        me.attrs["symbolic_denominator"] = lambda sx_, a_, kw_: w.expr(SD, antisym_tensors=(D,))
+        st["arg"] = a[0] if a else kw.get("term")
+        return me
+    w.extra_hooks["EriOrbenergy"] = eo_hook
+    sx = w.make(ctx, "Term.use_symbolic_denominators")
+
+    def args():
+        st["val"] = norm(t_mul(Fraction(-1, 2), B(i=1, a=-1), T("pow", B(**B1), -2), ERI))
+        st["self"] = as_self(w, w.terms_of(w.expr(st["val"]))[0], EC + "Term", names=("sympy",))
+        return dict(self=st["self"])
+    for o in returned(ctx, rule, fn, sx.run(fn, args), "Term.use_symbolic_denominators", "symbolic product"):
+        vcheck(ctx, rule, fn, o.value, st["val"], "symbolic denominator * pref * num * eri is the term",
+               "Term.use_symbolic_denominators: the term is rebuilt from parts that do not give its value", key="symbolic product",
+               interp=interp_D)
+        reg = w.assumptions_of(o.value)["antisym_tensors"] if isinstance(o.value, Obj) else ()
+        ctx.check(rule, fn, D in reg and st.get("arg") is st["self"], "the result keeps the registration of D; the term itself is split",
+                  f"Term.use_symbolic_denominators: antisym_tensors {reg}", key="symbolic product register")
+    # -- Expr level, both directions
+    for meth, has in (("use_symbolic_denominators", True), ("use_symbolic_denominators", False)):
+        fn = ctx.model.fn(EC + f"Expr.{meth}")
+        w = World(IDX)
+        vals = [norm(t_mul(ERI, T("pow", B(**B1), -1))), norm(t_mul(2, TAMP, T("pow", B(**B2), -2))), norm(t_mul(-1, ERI, TAMP))]
+
+        def inner(sx, a, kw, has=has):
+            t = a[0]
+            k = [i for i, v in enumerate(vals) if same_value(t, v)][0]
+            return w.expr(T("mcall", raw(t), "M", (), ()), antisym_tensors=(D,) if has and k == 1 else ())
+        w.extra_hooks[meth] = inner
+        sx = w.make(ctx, f"Expr.{meth}")
+
+        def args():
+            ex = w.expr(t_add(*vals))
+            st["self"] = as_self(w, ex, EC + "Expr", names=("terms",), _expr=raw(ex), _antisym_tensors=set(), _sym_tensors=set(),
+                                 _target_idx=None, _real=False)
+            return dict(self=st["self"])
+        what = f"Expr.{meth}[{'one term with D' if has else 'no D'}]"
+        for o in returned(ctx, rule, fn, sx.run(fn, args), what, f"Expr.{meth} {has}"):
+            me = st["self"]
+            vcheck(ctx, rule, fn, me.attrs["_expr"], t_add(*[T("mcall", v, "M", (), ()) for v in vals]),
+                   f"{what}: every term converted and added once", f"{what}: the converted terms are not added up once each",
+                   key=f"Expr.{meth} {has} sum")
+            ctx.check(rule, fn, (D in me.attrs["_antisym_tensors"]) == has, "D registered iff a term got a symbolic denominator",
+                      f"{what}: antisym tensors afterwards {sorted(me.attrs['_antisym_tensors'])}", key=f"Expr.{meth} {has} register")
+
+
+# ------------------------------------------------------------------------------------------------ R13d
+
+def _marker(v, meth):
+    return T("mcall", raw(v), meth, (), ())
+
+
+def homomorphism(ctx, rule, method, levels=("Expr", "Term", "Polynom")):
+    """M(sum t) = sum M(t),  M(prod o) = prod M(o),  M((sum t)**n) = (sum M(t))**n  with the arguments of the outer
+    call forwarded to the inner calls (by parameter name) and the inner calls asked for raw values."""
+    inner_cls = {"Expr": "Term", "Term": "Obj", "Polynom": "Term"}
+    vals = [norm(t_mul(Fraction(1, 2), ERI, T("pow", B(**B1), -1))), norm(t_mul(-2, TAMP, E("k"))), norm(t_mul(ERI, TAMP))]
+    pol = T("pow", t_add(*vals), -2)
+    st = {}
+    for level in levels:
+        fn = ctx.model.fn(f"{EC}{level}.{method}")
+        inner = ctx.model.fn(f"{EC}{inner_cls[level]}.{method}")
+        outer_params = [a.arg for a in fn.args.args[1:] + fn.args.kwonlyargs]
+        inner_params = [a.arg for a in inner.args.args[1:] + inner.args.kwonlyargs]
+        for rs in ((True, False) if "return_sympy" in outer_params else (None,)):
+            w = World(IDX)
+            calls = []
+
+            def hook(sx, a, kw, inner=inner, calls=calls):
+                if not (isinstance(a[0], Obj) and a[0].attrs.get("$kind") in ("term", "obj", "polynom")):
+                    return NotImplemented
+                b = sx.bind(inner, list(a), dict(kw), False, True, True)
+                calls.append(b)
+                return _marker(a[0], method)
+            w.extra_hooks[method] = hook
+            sx = w.make(ctx, f"{level}.{method}")
+
+            def args(level=level, rs=rs):
+                del calls[:]
+                sent = {}
+                for p in outer_params:
+                    if p == "return_sympy":
+                        sent[p] = rs
+                    elif p == "target":
+                        sent[p] = w.idx("i", "a")
+                    else:
+                        sent[p] = sym(f"${p}")
+                st["sent"] = sent
+                if level == "Expr":
+                    ex = w.expr(t_add(*vals), antisym_tensors=(NAMES["sym_orb_denom"],))
+                    me = as_self(w, ex, EC + "Expr", names=("terms",), _expr=raw(ex), _antisym_tensors={NAMES["sym_orb_denom"]},
+                                 _sym_tensors=set(), _target_idx=None, _real=False)
+                    st["parts"] = [t.attrs["$value"] for t in me.attrs["terms"]]
+                elif level == "Term":
+                    t = w.terms_of(w.expr(t_mul(*[vals[0], E("c")])))[0]
+                    me = as_self(w, t, EC + "Term", names=("objects", "assumptions", "target", "antisym_tensors", "sym_tensors"))
+                    st["parts"] = [x.attrs["$value"] for x in me.attrs["objects"]]
+                else:
+                    t = w.terms_of(w.expr(t_mul(TAMP, pol)))[0]
+                    po = [x for x in w.objects_of(t) if x.attrs["$kind"] == "polynom"][0]
+                    me = as_self(w, po, EC + "Polynom", names=("terms", "exponent", "assumptions", "term", "antisym_tensors", "sym_tensors"))
+                    st["parts"] = [x.attrs["$value"] for x in me.attrs["terms"]]
+                st["me"] = me
+                return dict(self=me, **sent)
+            what = f"{level}.{method}" + ("" if rs is None else f"[return_sympy={rs}]")
+            for o in returned(ctx, rule, fn, sx.run(fn, args), what, what):
+                ms = [_marker(v, method) for v in st["parts"]]
+                want = t_add(*ms) if level == "Expr" else t_mul(*ms) if level == "Term" else T("pow", t_add(*ms), -2)
+                got = st["me"].attrs["_expr"] if level == "Expr" else o.value
+                shape = {"Expr": "sum over all terms", "Term": "product over all objects",
+                         "Polynom": "(sum over all terms) ** exponent of the polynom"}[level]
+                vcheck(ctx, rule, fn, got, want, f"{what}: {shape} of the converted parts, each once",
+                       f"{what}: the result is not the {shape} of the converted parts", key=f"{what} shape")
+                if level != "Expr" and rs is not None:
+                    ctx.check(rule, fn, isinstance(o.value, Obj) != rs, "raw value iff return_sympy", f"{what}: returns {fmt(o.value)}",
+                              key=f"{what} wrapping")
+                for p in outer_params:
+                    if p in ("return_sympy",) or p not in inner_params:
+                        continue
+                    okf = bool(calls) and all(b.get(p) == st["sent"][p] or b.get(p) is st["sent"][p] for b in calls)
+                    ctx.check(rule, fn, okf, f"{what}: parameter `{p}` forwarded",
+                              f"{what}: parameter `{p}` is not forwarded to the inner calls (they get {fmt([b.get(p) for b in calls])})",
+                              key=f"{what} forward {p}")
+                if "return_sympy" in inner_params:
+                    ctx.check(rule, fn, bool(calls) and all(b.get("return_sympy") is True for b in calls), f"{what}: inner calls return raw values",
+                              f"{what}: inner calls are made with return_sympy={[b.get('return_sympy') for b in calls]}", key=f"{what} raw")
+                yield level, rs, w, st, o
+
+
+def r13d(ctx):
+    rule = "R13d"
+    D = NAMES["sym_orb_denom"]
+    for level, rs, w, st, o in homomorphism(ctx, rule, "use_explicit_denominators"):
+        if level == "Expr":
+            ctx.check(rule, None, D not in st["me"].attrs["_antisym_tensors"], "Expr.use_explicit_denominators: D de-registered",
+                      "Expr.use_explicit_denominators keeps the symbolic denominator registered as antisymmetric tensor",
+                      key="Expr.use_explicit_denominators deregister", fn=EC + "Expr.use_explicit_denominators")
+        elif rs is False:
+            reg = w.assumptions_of(o.value)["antisym_tensors"] if isinstance(o.value, Obj) else None
+            ctx.check(rule, None, reg is not None and D not in reg, f"{level}.use_explicit_denominators: D de-registered in the wrapped result",
+                      f"{level}.use_explicit_denominators: antisym_tensors of the result {reg}", key=f"{level}.use_explicit_denominators deregister",
+                      fn=f"{EC}{level}.use_explicit_denominators")
+    for _ in homomorphism(ctx, rule, "block_diagonalize_fock"):
+        pass
+    for _ in homomorphism(ctx, rule, "expand_antisym_eri"):
+        pass
+    for level, rs, w, st, o in homomorphism(ctx, rule, "expand_intermediates", levels=("Term", "Polynom")):
+        if rs is False:
+            tg = w.assumptions_of(o.value)["target_idx"] if isinstance(o.value, Obj) else None
+            ctx.check(rule, None, tg is not None and tuple(tg) == tuple(st["sent"]["target"]), f"{level}.expand_intermediates: targets set on the result",
+                      f"{level}.expand_intermediates: target indices of the result are {fmt(tg)}", key=f"{level}.expand_intermediates targets",
+                      fn=f"{EC}{level}.expand_intermediates")
+    _expr_accumulate(ctx, rule, "expand_intermediates", dict(fully_expand=sym("$fully_expand")))
+    _obj_expand_antisym_eri(ctx, rule)
+    _obj_expand_intermediates(ctx, rule)
+
+
+def _expr_accumulate(ctx, rule, method, params):
+    """Expr.<method> builds the result from the converted terms (each once) and takes over their target indices."""
+    fn = ctx.model.fn(f"{EC}Expr.{method}")
+    inner = ctx.model.fn(f"{EC}Term.{method}")
+    w = World(IDX)
+    vals = [norm(t_mul(Fraction(1, 2), ERI, T("pow", B(**B1), -1))), norm(t_mul(-2, TAMP, E("k"))), norm(t_mul(ERI, TAMP))]
+    calls, st = [], {}
+
+    def hook(sx, a, kw):
+        if not (isinstance(a[0], Obj) and a[0].attrs.get("$kind") == "term"):
+            return NotImplemented
+        calls.append(sx.bind(inner, list(a), dict(kw), False, True, True))
+        return w.expr(_marker(a[0], method), target_idx=w.idx("i", "a"))
+    w.extra_hooks[method] = hook
+    sx = w.make(ctx, f"Expr.{method}")
+
+    def args():
+        del calls[:]
+        ex = w.expr(t_add(*vals))
+        st["me"] = as_self(w, ex, EC + "Expr", names=("terms",), _expr=raw(ex), _antisym_tensors=set(), _sym_tensors=set(),
+                           _target_idx=None, _real=False)
+        return dict(self=st["me"], **params)
+    what = f"Expr.{method}"
+    for o in returned(ctx, rule, fn, sx.run(fn, args), what, what):
+        me = st["me"]
+        vcheck(ctx, rule, fn, me.attrs["_expr"], t_add(*[_marker(v, method) for v in vals]), f"{what}: every term converted and added once",
+               f"{what}: the result is not the sum of the converted terms, each once", key=f"{what} shape")
+        for p, v in params.items():
+            ctx.check(rule, fn, bool(calls) and all(b.get(p) == v for b in calls), f"{what}: parameter `{p}` forwarded",
+                      f"{what}: parameter `{p}` is not forwarded ({fmt([b.get(p) for b in calls])})", key=f"{what} forward {p}")
+        ctx.check(rule, fn, all(b.get("return_sympy") in (False, None) for b in calls) or not isinstance(me.attrs["_expr"], Obj),
+                  f"{what}: stores a raw value", f"{what}: stores {fmt(me.attrs['_expr'])}", key=f"{what} raw")
+        tg = me.attrs.get("_target_idx")
+        if tg is None:
+            tg = me.attrs["$ass"].get("target_idx")
+        ctx.check(rule, fn, tg is not None and [raw_name(x) for x in tg] == ["i", "a"], f"{what}: target indices of the converted terms kept",
+                  f"{what}: target indices of the result are {fmt(tg)}, the converted terms carry (i, a)", key=f"{what} targets")
+
+
+def _obj_expand_antisym_eri(ctx, rule):
+    fn = ctx.model.fn(EC + "Obj.expand_antisym_eri")
+    V, v = NAMES["eri"], NAMES["coulomb"]
+    spins = {"no spin": ("", "", "", ""), "abab": ("a", "b", "a", "b"), "abba": ("a", "b", "b", "a"), "aaaa": ("a", "a", "a", "a"),
+             "aabb": ("a", "a", "b", "b")}
+    for name, sp in spins.items():
+        for n in (1, 2):
+            for rs in (True, False):
+                w = World({x: "general" + (":" + s if s else "") for x, s in zip("pqrs", sp)})
+                sx = w.make(ctx, "Obj.expand_antisym_eri")
+                val = T("pow", tensor("AntiSymmetricTensor", V, ("p", "q"), ("r", "s"), 1), n)
+
+                def args(val=val, rs=rs):
+                    ob = w.objects_of(w.terms_of(w.expr(val))[0])[0]
+                    return dict(self=as_self(w, ob, EC + "Obj", names=("name", "bra_ket_sym", "idx", "exponent", "sympy", "assumptions",
+                                                                       "base_and_exponent")), return_sympy=rs)
+                parts = []
+                if sp[0] == sp[2] and sp[1] == sp[3]:
+                    parts.append(tensor("SymmetricTensor", v, ("p", "r"), ("q", "s"), 1))
+                if sp[0] == sp[3] and sp[1] == sp[2]:
+                    parts.append(t_mul(-1, tensor("SymmetricTensor", v, ("p", "s"), ("q", "r"), 1)))
+                want = T("pow", t_add(*parts), n) if parts else 0
+                what = f"Obj.expand_antisym_eri[{name}, exponent {n}{'' if rs else ', wrapped'}]"
+                for o in returned(ctx, rule, fn, sx.run(fn, args), what, what):
+                    vcheck(ctx, rule, fn, o.value, want, f"{what}: (<pq||rs>)**n -> ((pr|qs) - (ps|qr))**n with the spin-allowed parts",
+                           f"{what}: expanded to {fmt(o.value)}", key=what)
+                    if not rs:
+                        reg = w.assumptions_of(o.value)["sym_tensors"] if isinstance(o.value, Obj) else ()
+                        ctx.check(rule, fn, (v in reg) == bool(parts), "Coulomb integral registered as symmetric iff it was introduced",
+                                  f"{what}: sym_tensors of the result {reg}", key=what + " register")
+    for name, val, fine in (("other tensor", T("pow", TAMP, 2), True),
+                            ("ERI without bra-ket symmetry", tensor("AntiSymmetricTensor", V, ("i", "j"), ("a", "b"), 0), False)):
+        w = World(IDX)
+        sx = w.make(ctx, "Obj.expand_antisym_eri")
+        outs = sx.run(fn, lambda val=val: dict(self=as_self(w, w.objects_of(w.terms_of(w.expr(val))[0])[0], EC + "Obj",
+                                                          names=("name", "bra_ket_sym", "idx", "exponent", "sympy", "assumptions")),
+                                             return_sympy=True))
+        if fine:
+            for o in returned(ctx, rule, fn, outs, f"Obj.expand_antisym_eri[{name}]", f"Obj.expand_antisym_eri {name}"):
+                vcheck(ctx, rule, fn, o.value, val, "other objects untouched", f"Obj.expand_antisym_eri[{name}]", key=f"Obj.expand_antisym_eri {name}")
+        else:
+            ctx.check(rule, fn, all(o.kind == "raise" for o in outs), "complex ERI (no bra-ket symmetry) refused",
+                      "Obj.expand_antisym_eri expands an ERI without bra-ket symmetry", key=f"Obj.expand_antisym_eri {name}")
+
+
+def _obj_expand_intermediates(ctx, rule):
+    fn = ctx.model.fn(EC + "Obj.expand_intermediates")
+    t2 = tensor("Amplitude", "t2", ("i", "j"), ("a", "b"), 0)
+    st = {}
+    for name, n, known in (("exponent 1", 1, True), ("exponent 2", 2, True), ("exponent 3", 3, True), ("exponent -1", -1, True),
+                           ("exponent -2", -2, True), ("exponent 1/2", Fraction(1, 2), True), ("unknown tensor", 2, False)):
+        for rs in (True, False):
+            w = World(IDX)
+            calls = []
+
+            def expand_itmd(sx, a, kw, calls=calls):
+                calls.append((list(a), dict(kw)))
+                return sym(f"$X{len(calls)}")
+
+            def intermediates(sx, a, kw, known=known, expand_itmd=expand_itmd):
+                it = Obj(None, "itmd")
+                it.attrs.update({"expand_itmd": expand_itmd, "$id": True})
+                reg = Obj(None, "Intermediates")
+                reg.attrs.update({"available": {"LN": it} if known else {}, "$id": True})
+                return reg
+            w.extra_hooks["Intermediates"] = intermediates
+            w.extra_hooks["longname"] = lambda sx, a, kw: "LN"
+            sx = w.make(ctx, "Obj.expand_intermediates")
+
+            def args(n=n, rs=rs):
+                del calls[:]
+                ob = w.objects_of(w.terms_of(w.expr(T("pow", t2, n)))[0])[0]
+                st["idx"] = w.idx("i", "j", "a", "b")
+                return dict(self=as_self(w, ob, EC + "Obj", names=("base", "exponent", "idx", "sympy", "assumptions", "term")),
+                            target=w.idx("i", "a"), return_sympy=rs, fully_expand=sym("$FE"))
+            what = f"Obj.expand_intermediates[{name}{'' if rs else ', wrapped'}]"
+            for o in returned(ctx, rule, fn, sx.run(fn, args), what, what):
+                if not known:
+                    vcheck(ctx, rule, fn, o.value, T("pow", t2, n), "unknown tensor untouched", what, key=what)
+                    continue
+                sep = is_num(n) and Fraction(n).denominator == 1 and n > 1
+                want = t_mul(*[sym(f"$X{k + 1}") for k in range(n)]) if sep else T("pow", sym("$X1"), n)
+                vcheck(ctx, rule, fn, o.value, want,
+                       f"{what}: " + ("product of n separate expansions (fresh contracted indices each)" if sep else "definition ** exponent"),
+                       f"{what}: t2**{n} is expanded to {fmt(o.value)}; " +
+                       ("an intermediate with exponent n > 1 must be expanded once per factor: with a single expansion raised to the "
+                        "power n all factors share the contracted indices of the definition (each summation index occurs 2n times)"
+                        if sep else "the exponent of the object is lost"), key=what)
+                okk = bool(calls) and all(not a and kw.get("return_sympy") is True and kw.get("fully_expand") == sym("$FE")
+                                          and tuple(kw.get("indices", ())) == tuple(st["idx"]) for a, kw in calls)
+                ctx.check(rule, fn, okk, f"{what}: definition expanded on the indices of the object, flag forwarded, raw value requested",
+                          f"{what}: expand_itmd called with {fmt([kw for _, kw in calls])}", key=what + " call")
+                if not rs:
+                    tg = w.assumptions_of(o.value)["target_idx"] if isinstance(o.value, Obj) else None
+                    ctx.check(rule, fn, tg is not None and [raw_name(x) for x in tg] == ["i", "a"], "targets set on the wrapped result",
+                              f"{what}: target indices of the result {fmt(tg)}", key=what + " targets")
+    # objects that are no tensors
+    w = World(IDX)
+    sx = w.make(ctx, "Obj.expand_intermediates")
+    dl = tensor("KroneckerDelta", "delta", ("i", "j"))
+    outs = sx.run(fn, lambda: dict(self=as_self(w, w.objects_of(w.terms_of(w.expr(dl))[0])[0], EC + "Obj",
+                                                names=("base", "exponent", "idx", "sympy", "assumptions", "term")),
+                                   target=None, return_sympy=True, fully_expand=True))
+    for o in returned(ctx, rule, fn, outs, "Obj.expand_intermediates[delta]", "Obj.expand_intermediates delta"):
+        vcheck(ctx, rule, fn, o.value, dl, "non-tensor objects untouched", "Obj.expand_intermediates[delta]", key="Obj.expand_intermediates delta")
+
+
+# ------------------------------------------------------------------------------------------------ R13f
+
+def _fock(p, q, n=1):
+    return T("pow", tensor("AntiSymmetricTensor", NAMES["fock"], (p,), (q,), 1), n)
+
+
+def r13f(ctx):
+    rule = "R13f"
+    st = {}
+    # -- block diagonalisation: only f_ov / f_vo vanish
+    fn = ctx.model.fn(EC + "Obj.block_diagonalize_fock")
+    table = [("f_ij", _fock("i", "j"), True), ("f_ab", _fock("a", "b"), True), ("f_ia", _fock("i", "a"), False),
+             ("f_ai", _fock("a", "i"), False), ("f_ia**2", _fock("i", "a", 2), False), ("f_ij**2", _fock("i", "j", 2), True),
+             ("f_ip", _fock("i", "p"), True), ("f_pa", _fock("p", "a"), True), ("f_pq", _fock("p", "q"), True), ("f_ii", _fock("i", "i"), True),
+             ("V_ijab", ERI, True), ("x_ia", tensor("AntiSymmetricTensor", "x", ("i",), ("a",), 0), True), ("e_i", E("i"), True),
+             ("number", Fraction(1, 2), True)]
+    for name, val, keep in table:
+        for rs in (True, False):
+            w = World(IDX)
+            sx = w.make(ctx, "Obj.block_diagonalize_fock")
+            outs = sx.run(fn, lambda val=val, rs=rs: dict(
+                self=as_self(w, w.objects_of(w.terms_of(w.expr(val))[0])[0], EC + "Obj", names=("name", "space", "sympy", "assumptions", "idx")),
+                return_sympy=rs))
+            what = f"Obj.block_diagonalize_fock[{name}{'' if rs else ', wrapped'}]"
+            for o in returned(ctx, rule, fn, outs, what, what):
+                vcheck(ctx, rule, fn, o.value, val if keep else 0,
+                       f"{what}: " + ("kept" if keep else "zero (occupied-virtual block)"),
+                       f"{what}: result {fmt(o.value)}; exactly the Fock elements with two specific and different spaces (f_ov / f_vo) "
+                       "vanish - a general index contains the diagonal block", key=what)
+    # -- diagonalisation of one element
+    fn = ctx.model.fn(EC + "Obj.diagonalize_fock")
+    cases = [  # name, value, target, expected (diag, {replaced: survivor})
+        ("f_ij, i target", _fock("i", "j"), ("i",), (E("i"), {"j": "i"})),
+        ("f_ij, j target", _fock("i", "j"), ("j",), (E("j"), {"i": "j"})),
+        ("f_ji, j target", _fock("j", "i"), ("j",), (E("j"), {"i": "j"})),
+        ("f_ij, both contracted", _fock("i", "j"), (), (E("i"), {"j": "i"})),
+        ("f_ij, both target", _fock("i", "j"), ("i", "j"), (_fock("i", "j"), {})),
+        ("f_ab, b target", _fock("a", "b"), ("b",), (E("b"), {"a": "b"})),
+        ("f_ij**2, i target", _fock("i", "j", 2), ("i",), (T("pow", E("i"), 2), {"j": "i"})),
+        ("f_ab**3, contracted", _fock("a", "b", 3), ("i",), (T("pow", E("a"), 3), {"b": "a"})),
+        ("f_ij**-1, i target", _fock("i", "j", -1), ("i",), (T("pow", E("i"), -1), {"j": "i"})),
+        ("f_ia", _fock("i", "a"), (), (0, {})),
+        ("f_ii", _fock("i", "i"), (), (_fock("i", "i"), {})),
+        ("f_ip, p contracted", _fock("i", "p"), ("i",), (E("i"), {"p": "i"})),
+        ("f_ip, i contracted", _fock("i", "p"), ("p",), (_fock("i", "p"), {})),
+        ("V_ijab", ERI, ("i",), (ERI, {})),
+        ("e_i", E("i"), (), (E("i"), {})),
+    ]
+    for name, val, tg, (wd, wsub) in cases:
+        for rs in (True, False):
+            w = World(IDX)
+            sx = w.make(ctx, "Obj.diagonalize_fock")
+
+            def args(val=val, tg=tg, rs=rs):
+                ex = w.expr(t_mul(TAMP, val), target_idx=w.idx(*tg))
+                ob = [x for x in w.objects_of(w.terms_of(ex)[0]) if same_value(x, val)][0]
+                return dict(self=as_self(w, ob, EC + "Obj", names=("name", "idx", "sympy", "exponent", "assumptions", "term", "base")),
+                            target=w.idx(*tg), return_sympy=rs)
+            what = f"Obj.diagonalize_fock[{name}{'' if rs else ', wrapped'}]"
+            for o in returned(ctx, rule, fn, sx.run(fn, args), what, what):
+                res = o.value
+                if not (isinstance(res, tuple) and len(res) == 2 and isinstance(res[1], dict)):
+                    ctx.bad(rule, fn, f"{what}: returns {fmt(res)}", key=what + " shape")
+                    continue
+                sub = {raw_name(k): raw_name(v) for k, v in res[1].items()}
+                okv = True
+                try:
+                    okv = same_value(res[0], wd)
+                except AnalysisError:
+                    okv = False
+                ctx.check(rule, fn, okv and sub == wsub,
+                          f"{what}: f_pq**n -> e_r**n with r the index that survives delta_pq (a contracted index is removed), "
+                          "the removed index is replaced by r; off-diagonal block 0; unevaluable delta: element kept",
+                          f"{what}: result {fmt(res[0])} with substitution {sub}; expected {fmt(wd)} with {wsub}", key=what)
+                if not rs:
+                    t_ = w.assumptions_of(res[0])["target_idx"] if isinstance(res[0], Obj) else None
+                    ctx.check(rule, fn, t_ is not None and [raw_name(x) for x in t_] == list(tg), "targets set on the wrapped result",
+                              f"{what}: target indices of the result {fmt(t_)}", key=what + " targets")
+    # target taken from the term if not given
+    w = World(IDX)
+    sx = w.make(ctx, "Obj.diagonalize_fock")
+
+    def args():
+        ex = w.expr(t_mul(TAMP, _fock("i", "j"), tensor("NonSymmetricTensor", "x", ("j",))))
+        ob = [x for x in w.objects_of(w.terms_of(ex)[0]) if same_value(x, _fock("i", "j"))][0]
+        return dict(self=as_self(w, ob, EC + "Obj", names=("name", "idx", "sympy", "exponent", "assumptions", "term")), target=None, return_sympy=True)
+    for o in returned(ctx, rule, fn, sx.run(fn, args), "Obj.diagonalize_fock[target of the term]", "diag default target"):
+        res = o.value
+        sub = {raw_name(k): raw_name(v) for k, v in res[1].items()} if isinstance(res, tuple) and isinstance(res[1], dict) else None
+        ctx.check(rule, fn, sub == {"j": "i"} and same_value(res[0], E("i")), "targets default to the targets of the term (i): j is removed",
+                  f"Obj.diagonalize_fock[target of the term]: {fmt(res)}", key="diag default target")
+
+    # -- one term: product of the diagonalised objects, substitutions collected, chains resolved
+    fn = ctx.model.fn(EC + "Term.diagonalize_fock")
+    inner = ctx.model.fn(EC + "Obj.diagonalize_fock")
+    X = lambda i: tensor("NonSymmetricTensor", "x", (i,))
+    tcases = {
+        "independent": ([(E("i"), {"j": "i"}), (E("a"), {"b": "a"}), (t_mul(X("j"), X("b")), {})], None),
+        "chain": ([(E("i"), {"j": "i"}), (E("j"), {"k": "j"}), (X("k"), {})], None),
+        "chain reversed": ([(E("j"), {"k": "j"}), (E("i"), {"j": "i"}), (X("k"), {})], None),
+        "long chain": ([(E("k"), {"l": "k"}), (E("i"), {"j": "i"}), (E("j"), {"k": "j"}), (X("l"), {})], None),
+        "same twice": ([(E("i"), {"j": "i"}), (E("i"), {"j": "i"}), (X("j"), {})], None),
+        "nothing": ([(ERI, {}), (TAMP, {})], None),
+        "conflict": ([(E("i"), {"j": "i"}), (E("k"), {"j": "k"}), (X("j"), {})], "NotImplementedError"),
+    }
+    for name, (parts, exc) in tcases.items():
+        for rs, parent in ((True, "expr"), (False, "expr"), (True, "polynom"), (False, "polynom")):
+            w = World(IDX)
+            calls = []
+            sx = w.make(ctx, "Term.diagonalize_fock")
+
+            def args(parts=parts, rs=rs, parent=parent):
+                del calls[:]
+                obs = []
+                for k, (dg, sb) in enumerate(parts):
+                    ob = Obj(None, f"o{k}")
+
+                    def dfo(sx_, a, kw, dg=dg, sb=sb):
+                        calls.append(sx_.bind(inner, [None] + list(a), dict(kw), False, True, True))
+                        return (dg, {w.index[x]: w.index[y] for x, y in sb.items()})
+                    ob.attrs.update({"diagonalize_fock": dfo, "$id": True})
+                    obs.append(ob)
+                val = t_mul(*[p for p, _ in parts])
+                if parent == "expr":
+                    t = w.terms_of(w.expr(val))[0]
+                else:
+                    po = [x for x in w.objects_of(w.terms_of(w.expr(t_mul(TAMP, T("pow", t_add(val, ERI), 2))))[0])
+                          if x.attrs["$kind"] == "polynom"][0]
+                    t = w.terms_of(po)[0]
+                st["tg"] = w.idx("i", "a")
+                return dict(self=as_self(w, t, EC + "Term", names=("assumptions", "expr"), objects=tuple(obs), target=w.idx("l",)),
+                            target=st["tg"], return_sympy=rs)
+            outs = sx.run(fn, args)
+            what = f"Term.diagonalize_fock[{name}, in {parent}{'' if rs else ', wrapped'}]"
+            if exc:
+                ctx.check(rule, fn, all(o.kind == "raise" for o in outs), f"{what}: contradicting substitutions refused",
+                          f"{what}: two Fock elements that replace the same index by different indices are accepted", key=what)
+                continue
+            # independent statement of the expectation: all substitutions closed under chains, applied to the product
+            m = {}
+            for _, sb in parts:
+                m.update(sb)
+            closed = {}
+            for k in m:
+                v, seen = m[k], set()
+                while v in m and v not in seen:
+                    seen.add(v)
+                    v = m[v]
+                closed[k] = v
+            prod = norm(t_mul(*[p for p, _ in parts]))
+            for o in returned(ctx, rule, fn, outs, what, what):
+                res = o.value
+                if parent == "expr":
+                    vcheck(ctx, rule, fn, res, substitute(prod, closed),
+                           f"{what}: product of the diagonalised objects with every removed index replaced by its final survivor",
+                           f"{what}: result {fmt(res)}; expected {fmt(norm(substitute(prod, closed)))}: the substitutions collected "
+                           "from the Fock elements are applied simultaneously, chains (f_ij f_jk: k -> j -> i) have to be resolved "
+                           "before", key=what)
+                    wrapped = res
+                else:
+                    okp = isinstance(res, tuple) and len(res) == 2 and isinstance(res[1], dict)
+                    sub = {raw_name(k): raw_name(v) for k, v in res[1].items()} if okp else None
+                    ctx.check(rule, fn, okp and same_value(res[0], prod) and sub == closed,
+                              f"{what}: product and resolved substitutions handed to the parent term",
+                              f"{what}: returns {fmt(res)}; expected the product {fmt(prod)} and the substitutions {closed}", key=what)
+                    wrapped = res[0] if okp else None
+                if not rs:
+                    t_ = w.assumptions_of(wrapped)["target_idx"] if isinstance(wrapped, Obj) else None
+                    ctx.check(rule, fn, t_ is not None and tuple(t_) == tuple(st["tg"]), "targets set on the wrapped result",
+                              f"{what}: target indices of the result {fmt(t_)}", key=what + " targets")
+                ctx.check(rule, fn, len(calls) == len(parts) and all(b.get("return_sympy") is True and tuple(b.get("target") or ()) == tuple(st["tg"])
+                                                                     for b in calls),
+                          f"{what}: every object diagonalised once with the targets of the term, raw values requested",
+                          f"{what}: inner calls {fmt([{k: v for k, v in b.items() if k != 'self'} for b in calls])}", key=what + " calls")
+    # default target
+    w = World(IDX)
+    calls = []
+    sx = w.make(ctx, "Term.diagonalize_fock")
+
+    def args():
+        del calls[:]
+        ob = Obj(None, "o0")
+        ob.attrs.update({"diagonalize_fock": lambda sx_, a, kw: calls.append(sx_.bind(inner, [None] + list(a), dict(kw), False, True, True)) or (ERI, {}),
+                         "$id": True})
+        st["tg"] = w.idx("k", "c")
+        return dict(self=as_self(w, w.terms_of(w.expr(ERI))[0], EC + "Term", names=("assumptions", "expr"), objects=(ob,), target=st["tg"]),
+                    target=None, return_sympy=False)
+    for o in returned(ctx, rule, fn, sx.run(fn, args), "Term.diagonalize_fock[default target]", "diag term default target"):
+        t_ = w.assumptions_of(o.value)["target_idx"] if isinstance(o.value, Obj) else None
+        ctx.check(rule, fn, t_ is not None and tuple(t_) == tuple(st["tg"]) and calls and tuple(calls[0].get("target") or ()) == tuple(st["tg"]),
+                  "targets default to the targets of the term and are kept on the result",
+                  f"Term.diagonalize_fock[default target]: result targets {fmt(t_)}, inner call target {fmt(calls[0].get('target') if calls else None)}",
+                  key="diag term default target")
+    # -- the expression
+    _expr_accumulate(ctx, rule, "diagonalize_fock", {})
+    fn = ctx.model.fn(EC + "Polynom.diagonalize_fock")
+    w = World(IDX)
+    sx = w.make(ctx, "Polynom.diagonalize_fock")
+    outs = sx.run(fn, lambda: dict(self=Obj(EC + "Polynom", "self"), target=None))
+    ctx.check(rule, fn, all(o.kind == "raise" for o in outs), "polynoms are refused (not silently kept)",
+              "Polynom.diagonalize_fock returns a value", key="polynom refused")
+
+
+# ------------------------------------------------------------------------------------------------ R13g
+
+def r13g(ctx):
+    rule = "R13g"
+    RE = "reduce_expr:"
+    st = {}
+    vals = [norm(t_mul(Fraction(1, 2), ERI, T("pow", B(**B1), -1))), norm(t_mul(-2, TAMP, E("k"))), norm(t_mul(ERI, TAMP)),
+            norm(t_mul(3, ERI, E("i"))), norm(t_mul(TAMP, T("pow", B(**B2), -1)))]
+    # -- grouping by equal remainder / denominator: every term once, transformed by its own operation
+    for name, finder, meth in (("factor_eri_parts", "find_compatible_eri_parts", "subs"), ("factor_denom", "find_compatible_denom", "permute")):
+        fn = ctx.model.fn(RE + name)
+        for gname, groups in (("two groups", {0: {2: "A", 4: "B"}, 1: {3: "C"}}), ("singletons", {0: {}, 1: {}, 2: {}, 3: {}, 4: {}}),
+                              ("one group", {2: {0: "A", 1: "B", 3: "C", 4: "D"}})):
+            w = World(IDX)
+            op = {}
+
+            def find(sx, a, kw, groups=groups, w=w, op=op):
+                st["found"] = (list(a), dict(kw))
+                out = {}
+                for i, d in groups.items():
+                    out[i] = {}
+                    for j, tag in d.items():
+                        # an operation the model can apply: swap of two indices (different per term)
+                        pr = {"A": ("i", "j"), "B": ("a", "b"), "C": ("k", "l"), "D": ("c", "d")}[tag]
+                        op[j] = pr
+                        out[i][j] = [(w.index[pr[0]], w.index[pr[1]]), (w.index[pr[1]], w.index[pr[0]])] if meth == "subs" else (w.idx(*pr),)
+                return out
+            w.extra_hooks[finder] = find
+            sx = w.make(ctx, name)
+
+            def args():
+                op.clear()
+                st["e"] = w.expr(t_add(*vals), real=True, target_idx=w.idx("i", "a"))
+                return dict(expr=st["e"], **({"eri_sym": sym("$eri_sym")} if name == "factor_denom" else {}))
+            what = f"{name}[{gname}]"
+            for o in returned(ctx, rule, fn, sx.run(fn, args), what, what):
+                res = o.value
+                order = [raw(t) for t in w.terms_of(w.expr(t_add(*vals)))]
+                want = []
+                for i, d in groups.items():
+                    want.append(norm(t_add(order[i], *[substitute(order[j], {op[j][0]: op[j][1], op[j][1]: op[j][0]}) for j in d])))
+                okl = isinstance(res, list) and len(res) == len(want)
+                ok = okl and all(same_value(g, x) for g, x in zip(res, want))
+                ctx.check(rule, fn, ok, f"{what}: one sub-expression per key term: the key term plus every matched term transformed by its own "
+                          f"{'substitution' if meth == 'subs' else 'permutation'}, each term exactly once",
+                          f"{what}: got {fmt(res)}; expected {fmt(want)} (a term is lost, counted twice or added untransformed)", key=what)
+                if okl:
+                    ctx.check(rule, fn, all(isinstance(g, Obj) and w.assumptions_of(g).get("real") is True and
+                                            w.assumptions_of(g).get("target_idx") is not None for g in res),
+                              f"{what}: the sub-expressions keep the assumptions of the expression",
+                              f"{what}: assumptions of the sub-expressions {[w.assumptions_of(g) if isinstance(g, Obj) else None for g in res]}",
+                              key=what + " assumptions")
+                if name == "factor_denom":
+                    ctx.check(rule, fn, st["found"][1].get("eri_sym", st["found"][0][1] if len(st["found"][0]) > 1 else None) == sym("$eri_sym"),
+                              "symmetry of the remainder forwarded", f"{what}: find_compatible_denom called with {fmt(st['found'][1])}", key=what + " eri_sym")
+        # single term: unchanged
+        w = World(IDX)
+        sx = w.make(ctx, name)
+        outs = sx.run(fn, lambda: dict(expr=w.expr(vals[0])))
+        for o in returned(ctx, rule, fn, outs, f"{name}[single term]", f"{name} trivial"):
+            ctx.check(rule, fn, isinstance(o.value, list) and len(o.value) == 1 and same_value(o.value[0], vals[0]), f"{name}: single term unchanged",
+                      f"{name}[single term] returns {fmt(o.value)}", key=f"{name} trivial")
+    # -- the remainder of a term: everything but numbers and orbital energies, protected by the targets of the full term
+    fn = ctx.model.fn(RE + "find_compatible_eri_parts")
+    w = World(IDX)
+    w.extra_hooks["find_compatible_terms"] = lambda sx, a, kw: st.__setitem__("parts", list(a[0])) or {"marker": 1}
+    sx = w.make(ctx, "find_compatible_eri_parts")
+    tv = [norm(t_mul(Fraction(-1, 2), ERI, TAMP, E("k"), T("pow", B(**B1), -2), T("pow", E("c"), -1))), norm(t_mul(T("pow", ERI, 2), B(**B3))),
+          norm(t_mul(3, TAMP))]
+    wantp = [norm(t_mul(ERI, TAMP)), T("pow", ERI, 2), TAMP]
+
+    def args():
+        ex = w.expr(t_add(*tv))
+        st["terms"] = list(w.terms_of(ex))
+        return dict(term_list=st["terms"])
+    for o in returned(ctx, rule, fn, sx.run(fn, args), "find_compatible_eri_parts", "eri part"):
+        parts = st.get("parts") or []
+        order = [[k for k, v in enumerate(tv) if same_value(t, v)][0] for t in st["terms"]]
+        ok = len(parts) == len(tv) and all(same_value(p_, wantp[k]) for p_, k in zip(parts, order))
+        ctx.check(rule, fn, ok and o.value == {"marker": 1}, "remainder = all objects but numbers and orbital-energy brackets, compared by find_compatible_terms",
+                  f"find_compatible_eri_parts compares the parts {fmt(parts)}; expected {fmt([wantp[k] for k in order])}", key="eri part")
+        tg = [w.assumptions_of(p_).get("target_idx") if isinstance(p_, Obj) else None for p_ in parts]
+        wt = [[raw_name(x) for x in w.target_of(t)] for t in st["terms"]]
+        ctx.check(rule, fn, len(tg) == len(wt) and all(t is not None and [raw_name(x) for x in t] == x_ for t, x_ in zip(tg, wt)),
+                  "the targets of the full term protect the indices of the remainder",
+                  f"find_compatible_eri_parts: the remainders carry the targets {fmt(tg)}, the terms have {wt}", key="eri targets")
+    outs = sx.run(fn, lambda: dict(term_list=[w.terms_of(w.expr(tv[0]))[0]]))
+    ctx.check(rule, fn, all(o.kind == "return" and o.value == {0: {}} for o in outs), "single term: nothing to compare",
+              f"find_compatible_eri_parts[single] {outs}", key="eri part trivial")
+    # -- reduce_expr: the value is conserved through the three stages
+    _reduce_expr(ctx, rule)
+
+
+def _reduce_expr(ctx, rule):
+    fn = ctx.model.fn("reduce_expr:reduce_expr")
+    st = {}
+    vals = [norm(t_mul(Fraction(1, 2), ERI, E("i"))), norm(t_mul(-2, TAMP, E("k"))), norm(t_mul(ERI, TAMP))]
+
+    def mk(w, zero=False):
+        def split(rec, k):
+            """the summands of a record in groups of at most k"""
+            v = raw(rec)
+            parts = list(v.args) if isinstance(v, T) and v.op == "add" else [v]
+            return [w.wrap_like(rec, t_add(*parts[i:i + k])) for i in range(0, len(parts), k)]
+
+        def expand_intermediates(sx, a, kw):
+            t = a[0]
+            v = raw(t)
+            return w.wrap_like(t, t_add(t_mul(v, sym("$A")), t_mul(v, sym("$B")), t_mul(v, t_add(1, t_mul(-1, sym("$A")), t_mul(-1, sym("$B"))))))
+
+        def find_parts(sx, a, kw):
+            n = len(a[0])
+            out = {0: {j: [] for j in range(2, n, 2)}}
+            if n > 1:
+                out[1] = {j: [] for j in range(3, n, 2)}
+            return out
+
+        def eo(sx, a, kw):
+            t = a[0]
+            me = Obj(None, "eo")
+            res = w.wrap_like(t, raw(t))
+            me.attrs.update({"$id": True, "eri": w.terms_of(w.wrap_like(t, ERI))[0], "num": w.expr(1),
+                             "permute_num": lambda sx_, a_, kw_: me, "cancel_orb_energy_frac": lambda sx_, a_, kw_: res})
+            return me
+        w.extra_hooks.update({
+            "expand_intermediates": expand_intermediates,
+            "factor_eri_parts": lambda sx, a, kw: split(a[0], 2),
+            "factor_denom": lambda sx, a, kw: split(a[0], 1),
+            "substitute_contracted": lambda sx, a, kw: [],
+            "find_compatible_eri_parts": find_parts,
+            "EriOrbenergy": eo,
+            "symmetry": lambda sx, a, kw: {},
+        })
+        if zero:
+            w.extra_hooks["subs"] = lambda sx, a, kw: w.wrap_like(a[0], 0) if isinstance(a[0], Obj) else 0
+        return w
+    w = mk(World(IDX))
+    sx = w.make(ctx, "reduce_expr", max_paths=64)
+    outs = sx.run(fn, lambda: dict(expr=w.expr(t_add(*vals), real=True)))
+    for o in returned(ctx, rule, fn, outs, "reduce_expr", "reduce_expr value"):
+        vcheck(ctx, rule, fn, o.value, t_add(*vals),
+               "reduce_expr: every expanded term reaches the result exactly once (expansion, ERI classes, denominators, cancellation, final factoring)",
+               "reduce_expr: with value-preserving expansion, grouping and cancellation steps the result differs from the input: a "
+               "sub-expression is dropped or added twice between the stages", key="reduce_expr value")
+    w = mk(World(IDX), zero=True)
+    sx = w.make(ctx, "reduce_expr", max_paths=64)
+    outs = sx.run(fn, lambda: dict(expr=w.expr(t_add(*vals), real=True)))
+    ctx.check(rule, fn, all(o.kind == "raise" for o in outs), "a substitution of contracted indices that annihilates a sub-expression is refused",
+              "reduce_expr continues with a sub-expression that its own index substitution turned into 0", key="zero guard")
+    w = mk(World(IDX))
+    sx = w.make(ctx, "reduce_expr", max_paths=64)
+    outs = sx.run(fn, lambda: dict(expr=w.expr(t_add(*vals), real=False)))
+    ctx.check(rule, fn, all(o.kind == "raise" for o in outs), "complex orbitals refused (intermediates are defined for real orbitals)",
+              "reduce_expr accepts an expression that is not real", key="real guard")
+
+
 def run(ctx):
     if ctx.want("R13h"):
         r13h(ctx)
-    for r, f in (("R13a", r13a), ("R13b", r13b), ("R13e", r13e)):
+    for r, f in (("R13a", r13a), ("R13b", r13b), ("R13c", r13c), ("R13d", r13d), ("R13e", r13e), ("R13f", r13f),
+                 ("R13g", r13g)):
         if ctx.want(r):
             f(ctx)
